@@ -23,6 +23,14 @@ def run(ctx):
                            'a record may hold a fitness that is not the objective at the recorded position', 'c20_truthful')
         _ir.check_programs(ctx, meta, IMPORTS, 'c20_greedy_check', '(fun p => t_alarms (is_pso p) (if sorts p then GRank else GSlot) p)',
                            'an individual\'s recorded fitness may increase between two records', 'c20_greedy_slot / c20_greedy_rank', only=GREEDY)
+        # histories of tasks (C20_task_histories): the regenerated programs outside the swarm family qualify (WCA is the recorded finding g)
+        hist = [o for o in _ir.OPTS if o not in ('PSO', 'AIWPSO', 'RPSO', 'WCA')]
+        _ir.check_programs(ctx, meta, IMPORTS + ['Analysis.TruthfulHist'], '(prog20_ok GNone)', None,
+                           'in a history of tasks a record may hold a fitness that is not the objective at the recorded position', 'C20_task_histories', only=hist)
+        _ir.check_programs(ctx, meta, IMPORTS + ['Analysis.TruthfulHist'], '(prog20_ok GSlot)', None,
+                           'in a history of tasks an agent\'s recorded fitness may increase between two records of a task', 'C20_task_histories', only=['ABC', 'CS', 'FPA'])
+        _ir.check_programs(ctx, meta, IMPORTS + ['Analysis.TruthfulHist'], '(prog20_ok GRank)', None,
+                           'in a history of tasks the k-th best recorded fitness may get worse between two records of a task', 'C20_task_histories', only=['HS', 'IHS'])
         _ir.trace_inclusion(ctx, meta)
         _ir.state_replay(ctx, meta)
     ctx.cov['rule'] = ('theorems for all boxes/objectives/oracles/iteration counts per regenerated program; run monitor: the objective re-applied to every '
